@@ -122,7 +122,9 @@ OFFSET = int(os.environ.get('MUT_OFFSET', '0'))
 for rel in FILES:
     path = os.path.join(W, rel)
     src, ms = mutants(path)
-    props = sorted({p for pre, ps in PMAP.items() if rel.startswith(pre) for p in ps})
+    # cheapest check first (measured quick-tier wall times); the set of mapped properties is unchanged
+    COST = {'C19': 17, 'C16': 13, 'C06': 27, 'C17': 36, 'C01': 41, 'C02': 49, 'C07': 61, 'C18': 87, 'C05': 112, 'C08': 160}
+    props = sorted({p for pre, ps in PMAP.items() if rel.startswith(pre) for p in ps}, key=lambda q: (COST.get(q, 100), q))
     for idx, (a, b, old, new) in enumerate(ms):
         if idx % STRIDE != OFFSET:
             continue
@@ -137,6 +139,7 @@ for rel in FILES:
             if 'error' in out:
                 verdict = 'NOCOMPILE'
             else:
+<<<<<<< HEAD
                 # `timeout` signals the whole process group, so a test binary that no longer terminates is killed as well
                 rc, out = sh('timeout -k 10 %d cargo test --workspace --offline -j6 2>&1 | grep -E "^test result|error(\\[|:)|FAILED|panicked|Terminated" | head -20' % TEST_TIMEOUT, cwd=W, timeout=TEST_TIMEOUT + 60)
                 # note: every passing summary line reads "... 0 failed; ...", so only a non-zero count means failure
@@ -144,6 +147,12 @@ for rel in FILES:
                         or 'test result' not in out or out.count('test result') < N_RESULT_LINES:
                     # const-evaluation / type errors that only the test build instantiates are compile failures too
                     verdict = 'NOCOMPILE (test build)' if 'error[E' in out else 'KILLED-BY-TESTS'
+=======
+                rc, out = sh('timeout -k 10 400 cargo test --workspace --offline -j6 2>&1 | grep -E "^test result|error(\\[|:)|FAILED|panicked" | head -20', cwd=W, timeout=1500)
+                # NB "test result: ok. 421 passed; 0 failed; ..." contains the word `failed`: only a non-zero count is a failure
+                if rc == 124 or 'FAILED' in out or 'error' in out or 'panicked' in out or re.search(r'\b[1-9]\d* failed', out) or out.count('test result') < 9:   # 9 = number of test binaries + doc-test runs on the unchanged tree
+                    verdict = 'KILLED-BY-TESTS'
+>>>>>>> wip-mut2
                 else:
                     verdict = ''
                     for p in props:
@@ -151,11 +160,20 @@ for rel in FILES:
                         v = [l for l in o.splitlines() if l.startswith('VIOLATION')]
                         if v:
                             verdict = 'CAUGHT %s %s' % (p, 'no-input' if 'no-failing-input-found' in v[0] else 'input')
+<<<<<<< HEAD
                             try:
                                 d = json.load(open(os.path.join(V, re.search(r'replay=(\S+)', v[0]).group(1))))
                                 detail = '%s | %s' % (d.get('kind'), str(d.get('input') or d.get('first_disagreeing_case') or d.get('theorem_or_suite') or d.get('log'))[:300].replace('\n', ' ').replace('\t', ' '))
                             except Exception as e:
                                 detail = 'replay unreadable: %r' % e
+=======
+                            try:  # remember which suite / theorem reported it (first replay)
+                                d = json.load(open(os.path.join(V, re.search(r'replay=(\S+)', v[0]).group(1))))
+                                what = d.get('input') or d.get('first_disagreeing_case') or d.get('theorem_or_suite') or ''
+                                verdict += ' [' + str(what).replace('\t', ' ').replace('\n', ' ')[:60] + ']'
+                            except Exception:
+                                pass
+>>>>>>> wip-mut2
                             break
                     if not verdict:
                         verdict = 'SURVIVED ' + ','.join(props)
